@@ -16,6 +16,7 @@ from .. import rig as R, ref, gen, qcore, env
 from ..orch import h
 
 ID = "C01"
+TECHNIQUE = 'runtime monitoring - transcript monitor: every EVENT frame of a REQ answer judged by a reference NIP-01 matcher against the acknowledged events; statement-shape monitor: SQL text at the DBAPI cursor / python source handed to compile() compared with a benign twin (hostile filter values must stay data)'
 LEVEL = "exploration"
 RULE = (
     "cases = (backend, seeded hostile store of 40-120 accepted events with a history of replacements and "
